@@ -35,4 +35,33 @@ theorem propagate_trace_basis_independent {β : Type} [Field β] (ii : β) (S1 S
   intro x y hxy
   rw [hxy, trace_sandwich S1 SS x.fn h3]
 
+section herm
+variable {β : Type} [Field β] [StarRing β]
+
+/-- a Hermitian matrix stays Hermitian under the sandwich with a real orthogonal pair -/
+theorem sandwich_herm (S1 SS A : Mat β n) (hreal : ∀ x y, star (SS x y) = SS x y) (hT : ∀ x y, S1 x y = SS y x)
+    (hA : ∀ i j, star (A i j) = A j i) (i j : Fin n) :
+    star (sandwich S1 SS A i j) = sandwich S1 SS A j i := by
+  have ht : sandwich S1 SS A j i = sandwich S1 SS (fun i j => A j i) i j :=
+    congrFun (congrFun (sandwich_transpose S1 SS A hT) i) j
+  rw [ht]
+  simp only [sandwich, matMul, sumFin_eq_sum, star_sum, star_mul', hT, hreal, hA]
+
+/-- **Hermiticity of the stored states carries over to every basis** -/
+theorem propagate_herm_basis {ii : β} (S1 SS H : Mat β n) (R : Tens β n) (dt : β)
+    (L Nref nt : Nat) (ρ0 ρ0' : MatD β n n)
+    (h1 : ∀ x y, ∑ c, S1 c x * S1 c y = if x = y then 1 else 0)
+    (h2 : ∀ x y, ∑ d, SS x d * SS y d = if x = y then 1 else 0)
+    (h3 : ∀ x y, ∑ a, SS x a * S1 a y = if x = y then 1 else 0)
+    (hreal : ∀ x y, star (SS x y) = SS x y) (hT : ∀ x y, S1 x y = SS y x)
+    (h0 : ρ0'.fn = sandwich S1 SS ρ0.fn) :
+    List.Forall₂ (fun x y => (∀ i j, star (x.fn i j) = x.fn j i) → ∀ i j, star (y.fn i j) = y.fn j i)
+      (rdmPropagate (genTensor ii H R) dt L Nref nt ρ0)
+      (rdmPropagate (genTensor ii (sandwich S1 SS H) (transformTwoPass S1 SS R)) dt L Nref nt ρ0') := by
+  refine List.Forall₂.imp ?_ (propagate_covariant ii S1 SS H R dt L Nref nt ρ0 ρ0' h1 h2 h3 h0)
+  intro x y hxy hx i j
+  rw [hxy]
+  exact sandwich_herm S1 SS x.fn hreal hT hx i j
+end herm
+
 end QV.Prop
